@@ -96,6 +96,227 @@ def layer1(eng, rep, tier):
     return out
 
 
+# ---------------------------------------------------------------------------------- layers 3 and 4 (process pool)
+_WENG = None
+
+
+def _worker(task):
+    """runs one case in a worker process; returns a picklable summary (models concretised to JSON)"""
+    global _WENG
+    from checks import c06_lit, c06_sem
+    if _WENG is None:
+        _WENG = make_engine()
+    eng = _WENG
+    eng.contracts.clear()
+    layer = task['layer']
+    t0 = time.time()
+    out = {'task': task, 'paths': 0, 'queries': 0, 'solver_s': 0.0, 'sat': [], 'samples': [], 'error': None}
+    try:
+        if layer == 3:
+            r = c06_lit.run_case(eng, task['op'], task['kind'], task['a1'], task['a2'], task['n1'], task['n2'], frac=task.get('frac', False),
+                                 reach_twin=task.get('reach', False), spec_override=task.get('spec'), shard=task.get('shard'))
+            for st, model, info, why in r['sat'][:5]:
+                item = {'why': why, 'decisions': ''.join(map(str, st.decisions))}
+                if model is not None:
+                    item['input'] = {'op': task['op'], 'a': c06_lit.concretise(task['kind'], info.get('a'), model),
+                                     'b': c06_lit.concretise(task['kind'], info.get('b'), model) if info.get('b') is not None else None,
+                                     'probe': _probe_of(task['kind'], model)}
+                out['sat'].append(item)
+            out['nsat'] = len(r['sat'])
+        else:
+            r = c06_sem.run_case(eng, task['op'], task['n1'], task['n2'], reach_twin=task.get('reach', False), wrong=task.get('wrong'),
+                                 shard=task.get('shard'))
+            for st, model, inputs, t, why in r['sat'][:5]:
+                item = {'why': why, 'decisions': ''.join(map(str, st.decisions))}
+                if model is not None:
+                    d = c06_sem.concretise(model, inputs, t)
+                    d['op'] = task['op']
+                    item['input'] = d
+                out['sat'].append(item)
+            out['nsat'] = len(r['sat'])
+        out['paths'] = r['paths']
+        out['queries'] = r['obligation_queries'] + r['feasibility_queries']
+        out['solver_s'] = r['solver_s']
+        out['samples'] = r['samples']
+    except Panic as e:
+        out['error'] = f'panic: {e}'
+        out['panic'] = str(e)
+    except (Unmodelled, BoundHit) as e:
+        out['error'] = f'{type(e).__name__}: {e}'
+    except Exception as e:   # engine bug: never a pass
+        import traceback
+        out['error'] = 'internal: ' + traceback.format_exc()[-1500:]
+    out['executed'] = dict(eng.executed)
+    out['models'] = dict(eng.models_used)
+    out['wall'] = time.time() - t0
+    return out
+
+
+def _probe_of(kind, model):
+    vals = {}
+    for d in model.decls():
+        n = d.name()
+        if n.startswith('probe'):
+            vals[n] = model[d]
+    if kind == 'Boolean':
+        for n, v in vals.items():
+            return bool(v.as_long())
+        return False
+    ints = [v for n, v in sorted(vals.items()) if '_int' in n or '_str' in n or '_tak' in n or '_vu' in n]
+    fr = [v for n, v in sorted(vals.items()) if '_frac' in n]
+    if not ints:
+        return [0]
+    return [ints[0].as_signed_long() if kind == 'Number' else ints[0].as_long()] + ([fr[0].as_signed_long()] if fr else [])
+
+
+def lit_tasks(tier):
+    tasks = []
+    if tier == 'quick':
+        lens = {'Number': [1, 2], 'String': [1, 2], 'TypedArray': [1, 2]}
+    else:
+        lens = {'Number': [1, 2, 3], 'String': [1, 2, 3], 'TypedArray': [1, 2, 3]}
+    for kind, ls in lens.items():
+        for op in ('union', 'intersect', 'diff'):
+            for a1 in (True, False):
+                for a2 in (True, False):
+                    for n1 in ls:
+                        for n2 in ls:
+                            t = {'layer': 3, 'op': op, 'kind': kind, 'a1': a1, 'a2': a2, 'n1': n1, 'n2': n2}
+                            if n1 == 3 and n2 == 3:
+                                for i in range(8):
+                                    tasks.append(dict(t, shard=(i, 8)))
+                            else:
+                                tasks.append(t)
+        for a1 in (True, False):
+            for n1 in ls:
+                tasks.append({'layer': 3, 'op': 'complement', 'kind': kind, 'a1': a1, 'a2': True, 'n1': n1, 'n2': 0})
+    for op in ('union', 'intersect', 'diff', 'complement'):
+        tasks.append({'layer': 3, 'op': op, 'kind': 'Boolean', 'a1': True, 'a2': True, 'n1': 0, 'n2': 0})
+    if tier != 'quick':
+        for op in ('union', 'intersect', 'diff'):
+            for a1 in (True, False):
+                for a2 in (True, False):
+                    tasks.append({'layer': 3, 'op': op, 'kind': 'Number', 'a1': a1, 'a2': a2, 'n1': 2, 'n2': 2, 'frac': True})
+    return tasks
+
+
+def sem_tasks(tier):
+    tasks = []
+    top = 2 if tier == 'quick' else 3
+    for op in ('union', 'intersect', 'diff'):
+        for n1 in range(top + 1):
+            for n2 in range(top + 1):
+                t = {'layer': 4, 'op': op, 'n1': n1, 'n2': n2}
+                if n1 + n2 >= 5:
+                    for i in range(12):
+                        tasks.append(dict(t, shard=(i, 12)))
+                else:
+                    tasks.append(t)
+    for n1 in range(top + 1):
+        tasks.append({'layer': 4, 'op': 'complement', 'n1': n1, 'n2': 0})
+    return tasks
+
+
+def twin_tasks():
+    """vacuity and sensitivity witnesses of the layer 3/4 harnesses"""
+    return [
+        {'layer': 3, 'op': 'union', 'kind': 'Number', 'a1': True, 'a2': True, 'n1': 2, 'n2': 1, 'reach': True, 'twin': 'reach'},
+        {'layer': 3, 'op': 'union', 'kind': 'Number', 'a1': True, 'a2': False, 'n1': 1, 'n2': 2, 'spec': 'intersect', 'twin': 'mutant'},
+        {'layer': 3, 'op': 'diff', 'kind': 'String', 'a1': False, 'a2': True, 'n1': 1, 'n2': 1, 'spec': 'union', 'twin': 'mutant'},
+        {'layer': 4, 'op': 'intersect', 'n1': 1, 'n2': 2, 'reach': True, 'twin': 'reach'},
+        {'layer': 4, 'op': 'union', 'n1': 1, 'n2': 1, 'wrong': {'union': 'intersect'}, 'twin': 'mutant'},
+        {'layer': 4, 'op': 'diff', 'n1': 2, 'n2': 1, 'wrong': {'diff': 'intersect'}, 'twin': 'mutant'},
+    ]
+
+
+def replay_lit(inp):
+    res = {}
+    bad = False
+    for prof in ('dev', 'release'):
+        r = beffdrv('properop', inp, profile=prof)
+        res[prof] = r
+        if r.get('panic') or r.get('crash') or r.get('error') or r.get('wrong_kind') or r.get('got') != r.get('expected'):
+            bad = True
+    return bad, res
+
+
+def replay_sem(inp):
+    res = {}
+    bad = False
+    for prof in ('dev', 'release'):
+        r = beffdrv('semop', inp, profile=prof)
+        res[prof] = r
+        if r.get('panic') or r.get('crash') or r.get('error') or r.get('invariant_ok') is False or r.get('got') != r.get('expected'):
+            bad = True
+    return bad, res
+
+
+def layers34(rep, tier):
+    import multiprocessing as mp
+    tasks = lit_tasks(tier) + sem_tasks(tier)
+    twins = twin_tasks()
+    import random
+    random.Random(seed()).shuffle(tasks)
+    # biggest first for better packing
+    tasks.sort(key=lambda t: -(t.get('n1', 0) + t.get('n2', 0)))
+    agg = {3: {'cases': 0, 'paths': 0, 'queries': 0, 'solver_s': 0.0, 'samples': []},
+           4: {'cases': 0, 'paths': 0, 'queries': 0, 'solver_s': 0.0, 'samples': []}}
+    executed, models = {}, {}
+    witness = {'reach': 0, 'mutant': 0}
+    with mp.Pool(min(16, os.cpu_count() or 4)) as pool:
+        for out in pool.imap_unordered(_worker, twins + tasks):
+            t = out['task']
+            for k, v in out.get('executed', {}).items():
+                executed[k] = executed.get(k, 0) + v
+            for k, v in out.get('models', {}).items():
+                models[k] = models.get(k, 0) + v
+            label = f"layer{t['layer']} {t.get('kind', '')} {t['op']} allowed=({t.get('a1')},{t.get('a2')}) lens=({t['n1']},{t['n2']})"
+            if t.get('twin'):
+                if out['error']:
+                    rep.note_inconclusive(f'{label}: twin failed: {out["error"]}')
+                elif t['twin'] == 'reach' and (out['paths'] == 0 or out.get('nsat') != out['paths']):
+                    rep.note_inconclusive(f'{label}: reachability twin: {out.get("nsat")}/{out["paths"]} paths reach the obligation')
+                elif t['twin'] == 'mutant' and not out.get('nsat'):
+                    rep.note_inconclusive(f'{label}: seeded wrong specification/contract not detected')
+                else:
+                    witness[t['twin']] += 1
+                continue
+            a = agg[t['layer']]
+            a['cases'] += 1
+            a['paths'] += out['paths']
+            a['queries'] += out['queries']
+            a['solver_s'] += out['solver_s']
+            if len(a['samples']) < 3:
+                a['samples'] += out['samples'][:1]
+            if out.get('panic'):
+                # a panic of the real code under valid inputs: replay needs a model, which a panic path does not carry here
+                rep.note_inconclusive(f'{label}: executed code panics on a feasible path: {out["panic"]}')
+                continue
+            if out['error']:
+                rep.note_inconclusive(f'{label}: {out["error"]}')
+                continue
+            for item in out['sat']:
+                if 'input' not in item:
+                    rep.note_inconclusive(f'{label}: {item["why"]} on path {item["decisions"]} (no model to replay)')
+                    continue
+                if t['layer'] == 3:
+                    bad, res = replay_lit(item['input'])
+                    cmd = 'properop'
+                    key = f"lit:{t['kind']}:{t['op']}:allowed={int(t['a1'])}{int(t['a2'])}"
+                else:
+                    bad, res = replay_sem(item['input'])
+                    cmd = 'semop'
+                    key = f"sem:{t['op']}:{item['why'][:20]}"
+                if not bad:
+                    rep.note_inconclusive(f'{label}: solver counterexample did not reproduce natively: {json.dumps(item["input"])[:300]}')
+                    continue
+                rep.violation(key, f'{label}: {item["why"]}; native replay got={res["dev"].get("got")} expected={res["dev"].get("expected")} '
+                                   f'result={str(res["dev"].get("result"))[:160]}', {'cmd': cmd, 'input': item['input'], 'native': res})
+    for k in agg:
+        agg[k]['solver_s'] = round(agg[k]['solver_s'], 2)
+    return agg, executed, models, witness
+
+
 def main(tier):
     rep = Report(PID, tier)
     t0 = time.time()
@@ -110,7 +331,19 @@ def main(tier):
     except Panic as e:
         rep.note_inconclusive(f'layer1: executed code panics under the harness: {e}')
         l1 = {'paths': 0, 'queries': 0, 'solver_s': 0, 'samples': []}
-    obligations = l1['paths']
+    agg, executed, models, witness = layers34(rep, tier)
+    cov['layer3_literal_sets'] = agg[3]
+    cov['layer4_semtype_merge'] = agg[4]
+    cov['twins'] = witness
+    for k, v in executed.items():
+        eng.executed[k] = eng.executed.get(k, 0) + v
+    for k, v in models.items():
+        eng.models_used[k] = eng.models_used.get(k, 0) + v
+    obligations = l1['paths'] + agg[3]['paths'] + agg[4]['paths']
+    l1 = dict(l1)
+    l1['queries'] = l1['queries'] + agg[3]['queries'] + agg[4]['queries']
+    l1['solver_s'] = l1['solver_s'] + agg[3]['solver_s'] + agg[4]['solver_s']
+    l1['samples'] = l1['samples'][:3] + agg[3]['samples'][:2] + agg[4]['samples'][:2]
     coverage = {
         'explanation': 'Bounded symbolic execution of the real MIR bodies (mirsym, z3). Each obligation is one path of one real '
                        'function body with a solver query over all remaining symbolic scalars (truth tables of opaque children, atom '
@@ -118,7 +351,12 @@ def main(tier):
         'functions_encoded': sorted(eng.executed.keys()),
         'std_models_used': eng.models_used,
         'bounds': {'layer1': '4 atoms (16-bit truth tables), one unfolding of each body, recursive calls replaced by contracts; '
-                             'arbitrary depth below the root by assume/guarantee'},
+                             'arbitrary depth below the root by assume/guarantee',
+                   'layer3': 'ProperSubtypeOps on Boolean/Number/String/TypedArray: literal lists of length <= %d per operand, any (unsorted, '
+                             'possibly repeating) 64-bit integer literals / opaque totally ordered strings / typed-array kinds, both allowed flags; '
+                             'real sub_vec_union/intersect/diff underneath' % (2 if tier == 'quick' else 3),
+                   'layer4': 'SemTypeOps with <= %d proper entries per operand, all 13-bit `all` bitsets, symbolic tags (ascending, disjoint '
+                             'from `all`: the representation invariant, also asserted of every result), per-tag operations by contract' % (2 if tier == 'quick' else 3)},
         'obligations': obligations,
         'discharged': obligations - len(rep.violations),
         'queries': l1['queries'],
@@ -130,7 +368,8 @@ def main(tier):
         'samples': l1['samples'],
         'layers': cov,
         'outside_claim': ['termination of the recursion (assumed by the contracts)', 'diagrams over more than 4 atoms',
-                          'custom string/number formats (sub-format lattice)'],
+                          'custom string/number formats and the void/undefined pair (list elements that are types in a sub-type lattice, not '
+                          'values)', 'template-literal string subtypes with more than one item', 'literal lists longer than the bound'],
     }
     assumptions = ['the MIR text dump (-Zunpretty=mir, overflow checks on) is the code rustc compiles',
                    'mirsym interpreter + std model table (listed under std_models_used)', 'z3 4.8.12']
@@ -142,6 +381,10 @@ def replay(path):
     r = d['replay']
     res = beffdrv(r['cmd'], r['input'])
     print(json.dumps(res))
-    bad = res.get('panic') or res.get('crash') or res.get('tt_result') != res.get('tt_expected')
+    if r['cmd'] == 'bddop':
+        bad = res.get('panic') or res.get('crash') or res.get('tt_result') != res.get('tt_expected')
+    else:
+        bad = res.get('panic') or res.get('crash') or res.get('error') or res.get('wrong_kind') or res.get('invariant_ok') is False \
+            or res.get('got') != res.get('expected')
     print('REPRODUCED' if bad else 'not reproduced')
     return 1 if bad else 0
